@@ -222,14 +222,24 @@ def mk_pipeline_sum(name, args=(), params=None):
             lab = ln[:9]
             if lab in avr and len(ln) > 100:
                 rows.setdefault(lab, []).append(ln)
+        # labels need not be unique (two copies of a ligand in one chain): the table has one block per listed group
+        listed = [g for g in mol.conformations['AVR'].groups if g.use_in_calculations() and not (g.coupled_titrating_group and mol.version.parameters.remove_penalised_group)]
+        starts = {}
+        for ln in text.split('\n'):
+            if len(ln) > 100 and ln[10:16].strip() and ln[:9] in avr:
+                starts[ln[:9]] = starts.get(ln[:9], 0) + 1
+        for lab in {g.label for g in listed}:
+            n = len([g for g in listed if g.label == lab])
+            ctx.claim('one-block-per-listed-group', starts.get(lab, 0) == n, detail='%r: %d blocks for %d groups' % (lab, starts.get(lab, 0), n))
         # the two result sections agree on which groups there are: every group of the summary has its rows in the table
         from . import micro as M2
         for lab in M2.reported(mol):
             ctx.claim('summary-group-has-determinant-rows', lab in rows, detail='%r is in the summary but has no row in the determinant section' % lab)
+        all_labels = [g.label for g in mol.conformations['AVR'].groups if g.use_in_calculations()]
         for lab, lns in rows.items():
             g = avr[lab]
-            if g.atom.cysteine_bridge:
-                continue
+            if g.atom.cysteine_bridge or all_labels.count(lab) != 1:
+                continue      # (rows of groups that share a label cannot be told apart by this parser: covered by the block count)
             printed = 0.0
             for ln in lns:
                 cols = ln[49:]
@@ -264,7 +274,7 @@ def obligations(tier):
         Obligation('O6-add-and-divide', o_add_determinant, code=[G + 'Group.__iadd__', G + 'Group.add_determinant', G + 'Group.__truediv__'],
                    bounds='2+1 determinants, symbolic values and divisor in [1,5]', claim_doc='merge by partner; division scales every field'),
     ]
-    fx = [('nterm_ASP_LYS', ()), ('pep8', ()), ('lig_MTX', ()), ('pair_GLU_ARG_TYR', ()), ('pair_CYS_CYS_bridge', ()), ('complex_MTX', ()), ('complex_MTX^MTX=L', ()), ('tri_ASP$25', ()), ('tri_GLU$21', ())]
+    fx = [('nterm_ASP_LYS', ()), ('pep8', ()), ('lig_MTX', ()), ('pair_GLU_ARG_TYR', ()), ('pair_CYS_CYS_bridge', ()), ('complex_MTX', ()), ('complex_MTX^MTX=L', ()), ('tri_ASP$25', ()), ('tri_GLU$21', ()), ('complex_MTX2', ())]
     if tier == 'thorough':
         fx += [('pair_ASP_ARG', ()), ('pair_LYS_ASP', ()), ('pair_ASP_ASP', ('-d',)), ('lig_KNI', ()), ('cterm_PHE', ()), ('tri_HIS', ()), ('nterm_ASP_LYS', ('-d',))]
     from .micro import BURIED, COUPLED
